@@ -37,6 +37,10 @@ from rpyc.core import brine, consts
 from rpyc.core.service import VoidService
 
 
+class CallbackBoom(Exception):
+    """what a user's AsyncResult callback raises"""
+
+
 class VChan:
     def __init__(self, S, rec):
         self.S, self.inq, self.out, self.closed, self.rec = S, [], [], False, rec
@@ -69,7 +73,7 @@ class VChan:
         self.closed = True
 
 
-def scenario(n_clients, with_bg, answer_order, chooser, sync_timeout=2.0, timeouts=None, eof_after=None, peer_requests=0, exc_replies=(), answer_delay=None, events_out=None):
+def scenario(n_clients, with_bg, answer_order, chooser, sync_timeout=2.0, timeouts=None, eof_after=None, peer_requests=0, exc_replies=(), answer_delay=None, events_out=None, raising_callback=()):
     """returns dict(result per client, events, lateness per client, deadlock, clock advances)"""
     codes = [P.Connection.serve.__code__, P.Connection._dispatch.__code__, P.Connection._seq_request_callback.__code__,
              P.Connection._async_request.__code__, P.Connection._get_seq_id.__code__, P.Connection._send.__code__,
@@ -163,6 +167,10 @@ def scenario(n_clients, with_bg, answer_order, chooser, sync_timeout=2.0, timeou
                     out["results"][i] = "EXC:" + ("EOFError" if isinstance(e, EOFError) else type(e).__name__)
                     out["return_time"][i] = S.now
                     return
+                if i in raising_callback:
+                    def boom(r_, i=i):
+                        raise CallbackBoom("callback of client %d" % i)
+                    res.add_callback(boom)
                 res.set_expiry(sync_timeout if timeouts is None else timeouts[i])
                 tmo = sync_timeout if timeouts is None else timeouts[i]
                 if tmo is not None:
@@ -384,6 +392,32 @@ def oracle13_mixed(ctx, case, out, n_clients, exc_replies):
         ctx.violation("thread-raised", case, observed=out["errors"], expected="no exception", what="a thread raised")
 
 
+def oracle13_callback(ctx, case, out, n_clients, raisers):
+    """some clients registered a callback that raises. Every OTHER request must still complete with its own reply, and the serving
+    threads must survive; the error may surface in the thread that owns the callback's request."""
+    if out["deadlock"]:
+        ctx.violation("deadlock", case, observed=out["deadlock"][:300], expected="no deadlock", what="all threads blocked with no deadline")
+        return
+    hit = []
+    for i in range(n_clients):
+        r = out["results"].get(i)
+        if i in raisers:
+            if r not in ("p%d" % i, "EXC:CallbackBoom"):
+                ctx.violation("reply-crossed-or-lost:" + str(r)[:30], case, observed=r, expected="its reply or its own callback's error", what="a request ended with neither its reply nor its own callback's error")
+        elif r == "EXC:CallbackBoom":
+            hit.append("client %d" % i)
+        elif r != "p%d" % i:
+            ctx.violation("reply-crossed-or-lost:" + str(r)[:30], case, observed=r, expected="p%d" % i, what="a request did not end with its own reply")
+    if "bg" in out["errors"] and "CallbackBoom" in out["errors"]["bg"]:
+        hit.append("background serving thread (ended)")
+    other = {k: v for k, v in out["errors"].items() if "CallbackBoom" not in v}
+    if hit:
+        ctx.violation("callback-error-surfaces-in-another-thread", case, observed=hit, expected="only the request that registered the callback is affected",
+                      what="the error of one request's callback was raised in whichever thread dispatched the reply: another request failed with it / the serving thread ended")
+    if other:
+        ctx.violation("thread-raised", case, observed=other, expected="no exception", what="a thread raised")
+
+
 def oracle13_expiry(ctx, case, out, n_clients):
     """short expiries and a slow peer: every request completes exactly once - with its own reply if that was dispatched before its
     expiry, else with the timeout error and not before its expiry; a late reply is dropped (its callback is gone, the cell not ready)"""
@@ -531,6 +565,18 @@ def run_plans(ctx, which):
             ctx.case(("mixed", nc, bg, tuple(order), seed, pr, tuple(ex)), nontrivial=True, sample={"case": case, "results": out["results"], "served": len(out["peer_replies"])})
             ctx.count("mixed-runs(inbound requests + exception replies)")
             oracle13_mixed(ctx, case, out, nc, ex)
+    if which == "C13":
+        for k in range(40 if ctx.quick else 1000):
+            nc = r.choice([2, 2, 3])
+            bg = r.random() < 0.6
+            order = list(range(nc)); r.shuffle(order)
+            seed, stick = r.randrange(10**9), r.choice([0.0, 0.2, 0.5])
+            raisers = [r.randrange(nc)]
+            out = scenario(nc, bg, order, make_chooser(seed, stick), raising_callback=raisers)
+            case = {"clients": nc, "bg": bg, "order": order, "seed": seed, "stick": stick, "raising_callback": raisers}
+            ctx.case(("callback", nc, bg, tuple(order), seed, tuple(raisers)), nontrivial=True, sample={"case": case, "results": out["results"], "errors": out["errors"]})
+            ctx.count("raising-callback-runs")
+            oracle13_callback(ctx, case, out, nc, raisers)
     xbatch = []
     if which == "C13":
         for k in range(80 if ctx.quick else 2000):
@@ -590,6 +636,11 @@ def replay(ctx, rep):
     if cs.get("eof_after") is not None:
         out = scenario(cs["clients"], cs["bg"], cs["order"], chooser, sync_timeout=None, timeouts=[None] * cs["clients"], eof_after=cs["eof_after"])
         oracle13_eof(ctx, cs, out, cs["clients"], cs["eof_after"])
+        ctx.case(("replay", cs["seed"]), True)
+        return
+    if "raising_callback" in cs:
+        out = scenario(cs["clients"], cs["bg"], cs["order"], chooser, raising_callback=cs["raising_callback"])
+        oracle13_callback(ctx, cs, out, cs["clients"], cs["raising_callback"])
         ctx.case(("replay", cs["seed"]), True)
         return
     if "delay" in cs:
